@@ -179,6 +179,50 @@ func VerifC01_OldContainerAfterLookalike() {
 	}
 }
 
+// VerifC01_PlaintextWithEmbeddedEnvelope: a plaintext that itself contains a whole envelope some earlier write
+// produced (bare or with the container header, either kind) next to at least one more byte is protected like any
+// other plaintext and comes back byte for byte, through Process and through the column processor.
+func VerifC01_PlaintextWithEmbeddedEnvelope() {
+	InitRegistry(nil)
+	s := verifStore()
+	wrapper, rh := verifChain(s)
+	kind := verif.Choose("kind", 0, 1)
+	h := verifHandler(kind)
+	embedded, err := rh.EncryptWithHandler(verifHandler(verif.Choose("embedded-kind", 0, 1)), []byte("A"), verif.Bytes("inner", 1))
+	if err != nil {
+		return
+	}
+	if verif.Choose("bare", 0, 1) == 1 {
+		embedded = embedded[SerializedContainerMinSize:]
+	}
+	var d []byte
+	switch verif.Choose("where", 0, 2) {
+	case 0:
+		d = append(verifDup(embedded), verif.Bytes("suffix", 1)...)
+	case 1:
+		d = append(verif.Bytes("prefix", 1), embedded...)
+	case 2:
+		d = append(append(verif.Bytes("prefix", 1), embedded...), verif.Bytes("suffix", 1)...)
+	}
+	c, err := rh.EncryptWithHandler(h, []byte("A"), verifDup(d))
+	verif.Assert(err == nil, "protect-no-error")
+	if err != nil {
+		return
+	}
+	verif.Reach("protected")
+	verif.Assert(!verif.Eq(c, d), "plaintext-with-embedded-envelope-is-protected")
+	out, err := rh.Process(verifDup(c), &base.DataProcessorContext{Keystore: s, Context: verifCtx("A")})
+	verif.Assert(err == nil, "reveal-no-error")
+	if err == nil {
+		verif.Assert(verif.Eq(out, d), "roundtrip-equal")
+	}
+	_, col, err := wrapper.OnColumn(verifCtx("A"), verifDup(c))
+	verif.Assert(err == nil, "column-no-error")
+	if err == nil {
+		verif.Assert(verif.Eq(col, d), "column-roundtrip-equal")
+	}
+}
+
 // VerifC02_OtherClientColumn: A's value under another identity is never revealed: Process fails and the
 // column comes back unchanged. reader 0 = client B (has its own, different keys), reader 1 = identity without keys.
 func VerifC02_OtherClientColumn() {
